@@ -4609,6 +4609,11 @@ func (s *Server) openSQLiteStore(opts ...queue.SQLiteOption) (*queue.SQLiteStore
 	if info.IsDir() {
 		return nil, fmt.Errorf("db path %q is a directory", p)
 	}
+	if v, ok := verifhook.Lookup("mcp.sqlite_now"); ok {
+		if now, ok := v.(func() time.Time); ok {
+			opts = append(opts, queue.WithSQLiteNowFunc(now))
+		}
+	}
 	return queue.NewSQLiteStore(p, opts...)
 }
 
